@@ -45,7 +45,7 @@ from autofit.non_linear.result import Placeholder
 
 MAXW = 4
 NEVAL = 4096
-WAIT = 30.0          # seconds a scheduled completion may take before the run is declared stuck
+WAIT = 120.0         # seconds a scheduled completion may take before the run is declared stuck
 GATES = [mp.Semaphore(0) for _ in range(MAXW)]
 GATED = mp.Value("i", 0)
 EVALS = mp.Array("i", NEVAL)
@@ -717,7 +717,11 @@ def case_jobs_race(c):
             items = list(WatchedProcess.run_jobs([TrivialJob(number=i) for i in range(c["jobs"])], c["cores"]))
             if sorted(it.number for it in items) != list(range(c["jobs"])):
                 wrong += 1
-            # run_jobs has joined every worker (timeout 1 s); one that is still alive blocks in job_queue.get()
+            # run_jobs has joined every worker with a 1 s timeout only; under load a worker may simply not have
+            # been scheduled yet, so give every worker a generous time to leave on its own before it is counted
+            # as blocked (a worker blocked in job_queue.get() never leaves)
+            for p in WATCH[0].procs:
+                p.join(60)
             if any(p.is_alive() for p in WATCH[0].procs):
                 stuck += 1
         except RaceHang:
@@ -738,7 +742,7 @@ def main():
     cases = json.load(open(sys.argv[1]))["cases"]
     out = []
     for c in cases:
-        signal.alarm(120 + 2 * int(c.get("repeat", 0)))
+        signal.alarm(400 + 2 * int(c.get("repeat", 0)))
         try:
             t0 = time.time()
             out.append({"ok": KINDS[c["kind"]](c)})
@@ -748,7 +752,7 @@ def main():
         except RaceHang as e:
             out.append({"exc": "RaceHang", "msg": str(e)[:300]})
         except CaseTimeout:
-            out.append({"exc": "Timeout", "msg": "case did not finish within 120 s"})
+            out.append({"exc": "Timeout", "msg": "case did not finish within its (400 s) limit"})
         except BaseException as e:  # noqa
             import traceback
             out.append({"exc": type(e).__name__, "msg": (str(e) + " | " + traceback.format_exc()[-600:])[:900]})
